@@ -26,6 +26,7 @@ void igris::vtermxx::newdata(int16_t input_c)
     char c = 0;
     int ret;
     int return_flag = 0;
+    unsigned int cursor_before = 0;
 
     while (return_flag == 0)
     {
@@ -69,6 +70,10 @@ void igris::vtermxx::newdata(int16_t input_c)
                 break;
             }
 
+            // the terminal cursor stands where the edit cursor stood before
+            // the key was handled
+            cursor_before = (unsigned int)(rl.line().current_size() -
+                                           rl.line().rightsize());
             ret = rl.newdata(c);
 
             switch (ret)
@@ -146,14 +151,22 @@ void igris::vtermxx::newdata(int16_t input_c)
             {
                 char buf[16];
 
+                // back to the start of the replaced line: that is as far as
+                // the cursor was from it, not the length of the line
+                if (cursor_before)
+                {
+                    if (echo)
+                    {
+                        ret = vt100_left(buf, (int)cursor_before);
+
+                        write_callback(buf, ret);
+                    }
+                }
+
                 if (rl.lastsize())
                 {
                     if (echo)
                     {
-                        ret = vt100_left(buf, rl.lastsize());
-
-                        write_callback(buf, ret);
-
                         write_callback(VT100_ERASE_LINE_AFTER_CURSOR, 3);
                     }
                 }
